@@ -38,7 +38,7 @@ ASSUMPTIONS = [
     "verovio is not installed: the lxml branch of the MEI reader is the one that runs",
 ]
 COMPONENTS = {"real": ["partitura.io.importkern", "partitura.io.exportkern", "partitura.io.importmei", "partitura.io.exportmei", "partitura.io.load_score", "numpy loadtxt/genfromtxt/savetxt", "lxml"], "stub": ["raw file layer (SimFS)", "HTTP client (fake urlopen)", "independent kern and MEI encoders (model/ref_kern.py, model/ref_mei.py)"]}
-PROBES = ("kern_spine_split_fallback_reader", "kern_two_spines_on_one_staff", "kern_spine_split_with_notes", "kern_same_part", "mei_dur_ppq", "kern_multi_spine", "kern_ties", "kern_tuplets", "kern_grace", "mei_attr_defs", "mei_child_defs", "mei_no_ppq", "mei_layers", "mei_tuplets", "mei_meter_change", "mei_key_change_with_meter_change", "upper_case_extension", "url_route", "url_short_reads", "read_fault", "write_fault", "export_roundtrip_checked", "rich_export_strict_kern", "rich_export_strict_mei", "rich_export_strict_tuplets")
+PROBES = ("kern_spine_split_fallback_reader", "load_score_as_part", "kern_force_same_part", "kern_two_spines_on_one_staff", "kern_spine_split_with_notes", "kern_same_part", "mei_dur_ppq", "kern_multi_spine", "kern_ties", "kern_tuplets", "kern_grace", "mei_attr_defs", "mei_child_defs", "mei_no_ppq", "mei_layers", "mei_tuplets", "mei_meter_change", "mei_key_change_with_meter_change", "upper_case_extension", "url_route", "url_short_reads", "read_fault", "write_fault", "export_roundtrip_checked", "rich_export_strict_kern", "rich_export_strict_mei", "rich_export_strict_tuplets")
 
 
 # ----------------------------------------------------------------------------
@@ -66,7 +66,7 @@ def generate(seed, tier, cfg):
     if cfg.endswith("-rt"):
         asc["parts"] = asc["parts"][:1]
     ext = {"kern": k.choice((".krn", ".kern", ".krn", ".KRN")), "mei": k.choice((".mei", ".mei", ".MEI"))}[fmt]
-    route = k.choice(("direct", "direct", "load_score", "load_score", "url"))
+    route = k.choice(("direct", "direct", "load_score", "load_score", "url", "as_part", "force_same") if cfg.endswith("-in") else ("direct", "direct", "load_score", "load_score", "url"))
     faults = []
     if k.random() < 0.35:
         if cfg.endswith("-in"):
@@ -113,6 +113,22 @@ def load_any(fs, path, route, fmt, res):
         return load_kern(path) if fmt == "kern" else load_mei(path)
     if route == "load_score":
         return pt.load_score(path)
+    if route == "as_part":
+        # the convenience loader that returns one merged Part: notes keep the staff the notation gives them
+        import partitura.score as S
+
+        res.probe("load_score_as_part")
+        res.notes_only = True
+        return S.Score([pt.load_score_as_part(path)])
+    if route == "force_same":
+        if fmt != "kern":
+            return load_mei(path)
+        res.probe("kern_force_same_part")
+        sc = load_kern(path, force_same_part=True)
+        if len(sc.parts) != 1:
+            res.violation("N4-parts", "load", "load_kern(force_same_part=True) returned %d parts" % len(sc.parts), site="force_same_part")
+        res.notes_only = True
+        return sc
     res.probe("url_route")
     url = "http://peer.example/" + path.split("/")[-1]
     fs.serve(url, fs.get(path))
@@ -351,7 +367,7 @@ def run_in(res, fs, asc, kn, fmt, path, faults, shape):
                             return
                         seen_v[v_] = si
             part = info.get(stn)
-            if part is not None:
+            if part is not None and not getattr(res, "notes_only", False):
                 ps = part_structure(part)
                 if ps["measures"] != sorted(sp["measures"]):
                     res.violation("N2-structure", "load", "kern spine (staff %d): measures start at %s, barlines are encoded at %s" % (stn, list(map(str, ps["measures"])), list(map(str, sorted(sp["measures"])))), site="measures")
@@ -375,7 +391,7 @@ def run_in(res, fs, asc, kn, fmt, path, faults, shape):
                 res.violation("N1-notes", "load", "MEI staff %d: loaded notes differ from what the notation denotes: missing %s, unexpected %s" % (stf["n"], fmtn(miss), fmtn(extra)), site=_classify(miss, extra))
                 return
             part = info.get(stf["n"])
-            if part is not None:
+            if part is not None and not getattr(res, "notes_only", False):
                 if len(set(v for *_, g, v in stf["notes"])) > 1:
                     res.probe("mei_layers")
                 ps = part_structure(part)
